@@ -8,7 +8,7 @@
        move      UPop UPush URot USwap URot3 USwapAbs USwapGlobal UFieldSwap UAppend UPopLast URemoveAt UAlloc UCall
        dup+retain UDupReg UDupStack UDupAbs UDupGlobal UFieldDup UDupUpvalue USlice UStrNew(intern hit)
        release   URelease URet
-       forget    UDrop (a C local holding a reference goes out of scope without vm_release), URet on a closure frame
+       forget    UDrop (a C local holding a reference goes out of scope without vm_release)
    Scalars are [VNon]; their values (indices, string contents) arrive as operands of [instr], taken from the
    decoded instruction stream of the real VM.
 
@@ -197,7 +197,7 @@ Definition run_uop (u : uop) (m : mstate) : res mstate :=
                 let result := if hasres then hd VNon (stack m) else VNon in
                 let st1 := if hasres then tl (stack m) else stack m in
                 let n := length st1 - fbase f in
-                bind (release_list (hp m) (refs (firstn n st1))) (fun h =>
+                bind (release_list (hp m) (refs (firstn n st1) ++ match fclos f with Some c => [c] | None => [] end)) (fun h =>
                   Ok (M (result :: skipn n st1) (globals m) fs (regs m) h))
             | [] => Stuck
             end
@@ -207,7 +207,6 @@ Definition run_uop (u : uop) (m : mstate) : res mstate :=
 Definition uop_leaks (u : uop) (m : mstate) : bool :=
   match u with
   | UDrop => match regs m with VRef _ :: _ => true | _ => false end
-  | URet => match frames m with f :: _ => match fclos f with Some _ => true | None => false end | [] => false end
   | _ => false
   end.
 
@@ -367,7 +366,7 @@ Definition ucode (i : instr) (m : mstate) : option (list uop) :=
       if has_kind m arr KArr then
         match idx_in idx (vals_len m arr) with
         | Some j => Some [UPop; UPop; UDrop; UPop; URot 1; UFieldSwap j; URelease; UPush]
-        | None => Some [UPop; UPop; UDrop; UPop; URot 1; UDrop; UPush]        (* out of range: v is neither stored nor released *)
+        | None => Some [UPop; UPop; UDrop; UPop; URot 1; URelease; UPush]     (* out of range: v is released *)
         end
       else Some [UPop; UPop; UDrop; UPop; URelease; URelease]
   | IArrSlice s e =>
@@ -382,7 +381,7 @@ Definition ucode (i : instr) (m : mstate) : option (list uop) :=
       let arr := peek m 1 in
       if has_kind m arr KArr then
         match idx_in idx (vals_len m arr) with
-        | Some j => Some [UPop; UDrop; UPop; URemoveAt j; UDrop; UPush]        (* the removed element is not released *)
+        | Some j => Some [UPop; UDrop; UPop; URemoveAt j; URelease; UPush]     (* the removed element is released *)
         | None => Some [UPop; UDrop; UPop; UPush]
         end
       else Some [UPop; UDrop; UPop; URelease]
@@ -413,7 +412,9 @@ Definition ucode (i : instr) (m : mstate) : option (list uop) :=
       else if is_non (peek m 0) then Some [UPop; URelease] else None
   | IRet => Some [URet]
   | ICallExtern argc rkey =>
-      Some (pop_drop argc ++ match rkey with Some key => [UStrNew key; UPush] | None => [UPushNon] end)
+      Some (pops argc ++ match rkey with
+                          | Some key => [UStrNew key] ++ flat_map (fun _ => [URot 1; URelease]) (repeat tt argc) ++ [UPush]
+                          | None => repeat URelease argc ++ [UPushNon] end)
   end.
 
 Definition step (i : instr) (m : mstate) : option (res mstate) :=
@@ -450,4 +451,4 @@ Definition static_exact (i : instr) : bool :=
   | IUnionConstruct _ | IUnionField _ | ITupleNew _ | ITupleGet _ | IClosureNew _ | ICall _ _ => true
   | _ => false
   end.
-Definition no_forget (u : uop) : bool := match u with UDrop | URet => false | _ => true end.
+Definition no_forget (u : uop) : bool := match u with UDrop => false | _ => true end.
